@@ -38,6 +38,10 @@ def m_extarg(vt):
     return None     # 3.13+: compared with the interpreter directly
 
 
+def hosts(tier):
+    return common.HOSTS
+
+
 def prepare(tier):
     return {"ops": common.datasets("opcodes", common.REFS)}
 
